@@ -74,6 +74,13 @@ def project_cases(tier, rng):
             cs.append("project %s %s %s" % (fmt(sh), fmt(data), fmt(to)))
         cs.append("project %s %s %s" % (fmt(sh), fmt(data), fmt(sh[:-1] if len(sh) > 1 else list(sh) + [1])))
         cs.append("project %s %s %s" % (fmt(sh), fmt(data), fmt(list(sh) + [1])))
+    # spectra with negative entries (differences, residuals): the formula is linear, partial sums may dip below zero
+    for sh in [s_ for s_ in shapes if elements(s_) <= 40][:: 7]:
+        data = [rng.randrange(-200, 200) for _ in range(elements(sh))]
+        for to in [tuple(sh), tuple(max(1, n - 1) for n in sh), tuple(1 for _ in sh)] + [tuple(rng.randrange(1, n + 1) for n in sh) for _ in range(3)]:
+            cs.append("project %s %s %s" % (fmt(sh), fmt(data), fmt(to)))
+        neg = [-abs(x) - 1 for x in data]
+        cs.append("project %s %s %s" % (fmt(sh), fmt(neg), fmt(sh)))
     return cs
 
 
@@ -163,7 +170,7 @@ def check(rep, tier, seed):
             if abs(tot - want) > TOL * sc * 10:
                 rep.fail(kind="property-oracle", cls="project:mass", case=cd, observed=str(float(tot)), expected=str(want),
                          detail="projection does not preserve total mass")
-            if any(parse_value(x) < -TOL * sc for x in tb[2].split(",")):
+            if all(Fraction(x) >= 0 for x in c.split()[2].split(",")) and any(parse_value(x) < -TOL * sc for x in tb[2].split(",")):
                 rep.fail(kind="property-oracle", cls="project:nonneg", case=cd, observed=b, expected=">= 0",
                          detail="projection of a non-negative spectrum has a negative entry")
 
